@@ -181,7 +181,9 @@ def run(ctx):
                     rc, o, e = c02.run_linker(lk, d, line, False, out)
                     c = c02.canon_impl(files, rc, e, out)
                     vs[lk] = c.split()[0] if not c.startswith("err") else c
-                if vs["ld"] == vs["lld"] and vs["lld"] != impl[i] and not vs["lld"].startswith("err:other"):
+                if vs["ld"] == vs["lld"] == "err:undef" and not impl[i].startswith("err") and c02.shlib_undefined_region(files):
+                    ctx.count("oracle", "skipped-shlib-undefined")
+                elif vs["ld"] == vs["lld"] and vs["lld"] != impl[i] and not vs["lld"].startswith("err:other"):
                     alt = reqs[i].replace(":u:", ":s:")
                     if alt != reqs[i]:
                         continue  # GNU-unique ranking difference is C02's recorded finding
